@@ -209,7 +209,9 @@ Section Undo.
                rewrite A1, Hv, Hl in B1. apply (f_equal (@length _)) in B1. rewrite !app_length in B1. simpl in B1.
                destruct e1; auto. simpl in B1. lia. }
              destruct (apply_theory_quiet s2 _ s3 None Ea Hl3) as (-> & Q1 & Q2).
-             pose proof (th_propagate_okI := Hp s2 p I2 (pstep_in_trail _ _ _ P2 Hpt)).
+             assert (Hpl2 : lvl s2 p = decision_level s2).
+             { apply (pstep_lvl s1 s2 p P2 Hpt). apply (i_queue_lvl T s (proj1 I)). rewrite Eq. simpl; auto. }
+             pose proof (th_propagate_okI := Hp s2 p I2 (pstep_in_trail _ _ _ P2 Hpt) Hpl2).
              assert (I3 : Inv T (set_thst s2 (fst (fst (th_propagate (thst s2) (assigns s2) (decision_level s2) p))))) by (apply set_thst_inv; auto).
              destruct (IH _ s' r I3 E) as [X3 R3]. simpl. rewrite Hl, Hv. reflexivity.
              split. eapply ext_step_trans. exact X02. eapply ext_step_trans; [|exact X3].
